@@ -42,6 +42,8 @@ type scriptGen struct {
 	defs     map[string]core.ClassDefinition
 	allTx    map[string]bool
 	maxHead  uint64
+	// longTarget > 0: keep appending until the stored chain is that long (views of dozens of blocks)
+	longTarget int
 }
 
 func (g *scriptGen) def(hash string, sierra bool) core.ClassDefinition {
@@ -130,7 +132,13 @@ func (g *scriptGen) next() *op {
 		return &op{Kind: opAdvance, Tag: "advance-to-head", Oldest: h + 1}
 	}
 	for {
-		switch w := rng.IntN(100); {
+		w := rng.IntN(100)
+		// long-view scripts: the pre-confirmed tip runs far ahead of the canonical head (a node whose
+		// block storage lags): appends dominate until the view is a few dozen blocks long
+		if g.longTarget > 0 && len(c) < g.longTarget && rng.IntN(10) < 6 {
+			w = 30
+		}
+		switch {
 		case w < 9: // head advances
 			if h >= g.maxHead {
 				continue
@@ -341,6 +349,9 @@ func genScript(rng *rand.Rand, n int) *script {
 	u := newUniverse(rng, startHead+1)
 	g := &scriptGen{rng: rng, u: u, cm: &canonModel{}, defs: map[string]core.ClassDefinition{}, allTx: map[string]bool{},
 		maxHead: startHead + 14}
+	if rng.IntN(6) == 0 {
+		g.longTarget = 17 + rng.IntN(24)
+	}
 	s := &script{U: u}
 	for i := uint64(0); i <= startHead; i++ {
 		d := g.cm.genDiff(rng, u)
